@@ -18,8 +18,15 @@ class QuaTimedList(TimedList[Item]):
     def _drop_missing(records: List[Dict[str, Any]]) -> List[Dict[str, Any]]:
         """Quaver leaves out keys that have no value: objects read without
         e.g. a HitSound must not be written with ``HitSound: .nan``"""
+        # A key that only some objects carry lives in a float column as soon as
+        # pandas has to hold a NaN next to its integers (e.g. after an append):
+        # whole numbers go back to integers, ``EditorLayer: 1`` not ``1.0``
         return [
-            {k: v for k, v in r.items() if not (isinstance(v, float) and v != v)}
+            {
+                k: int(v) if isinstance(v, float) and v.is_integer() else v
+                for k, v in r.items()
+                if not (isinstance(v, float) and v != v)
+            }
             for r in records
         ]
 
